@@ -9,11 +9,12 @@ rather than guess.  The prelude items the rules refer to are in vx/prelude/model
   R6   call of a fn-pointer binding `condition: F`    -> `call_cond(F, args)`
   R7   `&DashMap` / `&DashSet` / `&AtomicUsize` params -> `&mut SeqMap` / `SeqSet` / `Counter` (A-SEQ),
        `if let Entry::Vacant(E) = M.entry(K) { .. E.insert(V) .. } else { .. }` -> contains_key / insert
-  R11  `let X = V.drain(..).flat_map(|A| E); .. for P in X { body }` -> `drain_all` + explicit `loop`
+  R11  `let X = V.drain(..).flat_map|filter_map|map_while(|A| E); .. for P in X { body }` -> `drain_all` + explicit `loop`
   R11E `for A in V.drain(..) { body }`                  -> `drain_all` + explicit `loop`
+       (both name the iterator `it_` and keep a ghost copy `cur_` of the element drawn, whatever the source calls them)
   R3V  `for X in &V { body }`                          -> index `while` loop with `let X = &V[j_];`
   R6S  `P: Option<fn(&T) -> T>` param                  -> `P: &Option<ReprFn<T>>`, calls of its bindings -> `call_repr(F, ..)`
-  R11D `let X = P.drain(..E).collect::<Vec<_>>();`     -> `let n_ = E; let X = drain_front(P, n_);`
+  R11D `let X = P.drain(..[E])[.take(N)].collect::<Vec<_>>();` -> `drain_front(P, n_)` [+ `truncate(k_)`]
   R12  `&Option<Box<dyn CheckerVisitor<M> ..>>` param  -> `&Option<VisitorBox<M>>` + `vlog_: &mut VisitLog<M>`
   GH   the function gets one extra, erased parameter `gh_: &mut Gh<M>` (the unit's ghost state) and hands it
        on (`&*gh_`) to the GH_CALLEES functions;  GHR: the same, read-only (`gh_: &Gh<M>`)
@@ -196,25 +197,43 @@ def R7(body, ctx):
     return body, n
 
 
+_R11_ADAPTERS = {
+    # std, Iterator::flat_map: "Creates an iterator that works like map, but flattens nested structure" - the closure
+    # returns an `Option`, whose IntoIterator yields its value if it is `Some` and nothing otherwise
+    'flat_map': 'continue',
+    # std, Iterator::filter_map: "Creates an iterator that both filters and maps.  The returned iterator yields only
+    # the values for which the supplied closure returns Some(value)"
+    'filter_map': 'continue',
+    # std, Iterator::map_while: "Creates an iterator that both yields elements based on a predicate and maps ... It
+    # will call this closure on each element of the iterator, and yield elements while it returns Some(_)"; after the
+    # first None nothing more is yielded.  Vec::drain: "If the iterator is dropped before being fully consumed, it
+    # drops the remaining removed elements" - V is empty afterwards either way, as `drain_all` says
+    'map_while': 'break',
+}
+
+
 def R11(body, ctx):
-    """`let X = V.drain(..).flat_map(|A| E);` ... `for P in X { B }`   (E : Option<_>, so each A yields 0 or 1 item)
-    -> `let mut X = drain_all(&mut V);` ... `loop { let A = match X.next() { None => break, Some(a_) => a_ };
-         let P = match E { None => continue, Some(x_) => x_ }; B }`"""
+    """`let X = V.drain(..).ADAPTER(|A| E);` ... `for P in X { B }`   (E : Option<_>, so each A yields 0 or 1 item;
+    ADAPTER one of flat_map / filter_map (a `None` is skipped) / map_while (the first `None` ends the iteration))
+    -> `let mut it_ = drain_all(&mut V);` ... `loop { let A = match it_.next() { None => { break; } Some(a_) => a_ };
+         let ghost cur_ = A; let P = match E { None => { continue; | break; } Some(x_) => x_ }; B }`
+    The iterator is named `it_` whatever the source calls it (X occurs only in its `let` and its `for`); `cur_` is a
+    ghost copy of the element drawn, for contracts that must not depend on the closure's parameter name."""
     mask = code_mask(body)
-    rx = re.compile(r'let\s+(%s)\s*=\s*(%s)\.drain\(\s*\.\.\s*\)\.flat_map\(\s*\|\s*(%s)\s*\|' % (IDENT, IDENT, IDENT))
+    rx = re.compile(r'let\s+(%s)\s*=\s*(%s)\s*\.\s*drain\s*\(\s*\.\.\s*\)\s*\.\s*(flat_map|filter_map|map_while)\s*(\()\s*\|\s*(%s)\s*\|' % (IDENT, IDENT, IDENT))
     n = 0
     while True:
         m = _first_code_match(rx, body, mask)
         if not m:
             break
-        x, v, a = m.group(1), m.group(2), m.group(3)
-        # closure body runs to the `)` that closes flat_map(
-        po = body.index('flat_map(', m.start()) + len('flat_map')
+        x, v, adapter, a = m.group(1), m.group(2), m.group(3), m.group(5)
+        # closure body runs to the `)` that closes ADAPTER(
+        po = m.start(4)
         pc = match_close(body, po, mask)
         expr = body[m.end():pc].strip()
         sm = re.match(r'\s*;', body[pc + 1:])
         if not sm:
-            raise LostAnchor('R11: flat_map(..) is not the end of the let statement')
+            raise LostAnchor('R11: %s(..) is not the end of the let statement' % adapter)
         stmt_end = pc + 1 + sm.end()
         fx = re.compile(r'for\s+(%s)\s+in\s+%s\s*\{' % (IDENT, re.escape(x)))
         fm = _first_code_match(fx, body, mask, stmt_end)
@@ -224,9 +243,12 @@ def R11(body, ctx):
         if uses != 2:
             raise LostAnchor('R11: iterator `%s` used other than in its `for`' % x)
         p = fm.group(1)
+        it = 'it_' if n == 0 else 'it%d_' % n
+        cur = 'cur_' if n == 0 else 'cur%d_' % n
         head = ('loop {\n                let %s = match %s.next() { None => { break; } Some(a_) => a_ };\n'
-                '                let %s = match %s { None => { continue; } Some(x_) => x_ };' % (a, x, p, expr))
-        body = (body[:m.start()] + 'let mut %s = drain_all(&mut %s);' % (x, v) + body[stmt_end:fm.start()]
+                '                let ghost %s = %s;\n'
+                '                let %s = match %s { None => { %s; } Some(x_) => x_ };' % (a, it, cur, a, p, expr, _R11_ADAPTERS[adapter]))
+        body = (body[:m.start()] + 'let mut %s = drain_all(&mut %s);' % (it, v) + body[stmt_end:fm.start()]
                 + head + body[fm.end():])
         mask = code_mask(body)
         n += 1
@@ -235,9 +257,9 @@ def R11(body, ctx):
 
 def R11E(body, ctx):
     """`for A in V.drain(..) { B }`  ->  `let mut it_ = drain_all(&mut V); loop { let A = match it_.next() {
-    None => { break; } Some(a_) => a_ }; B }`   (the R11 idiom without the flat_map stage)"""
+    None => { break; } Some(a_) => a_ }; let ghost cur_ = A; B }`   (the R11 idiom without the adapter stage)"""
     mask = code_mask(body)
-    rx = re.compile(r'(?<![A-Za-z0-9_.])for\s+(%s)\s+in\s+(%s)\.drain\(\s*\.\.\s*\)\s*\{' % (IDENT, IDENT))
+    rx = re.compile(r'(?<![A-Za-z0-9_.])for\s+(%s)\s+in\s+(%s)\s*\.\s*drain\s*\(\s*\.\.\s*\)\s*\{' % (IDENT, IDENT))
     n = 0
     while True:
         m = _first_code_match(rx, body, mask)
@@ -245,8 +267,9 @@ def R11E(body, ctx):
             break
         a, v = m.group(1), m.group(2)
         name = 'it_' if n == 0 else 'it%d_' % n
-        body = (body[:m.start()] + 'let mut %s = drain_all(&mut %s);\n            loop {\n                let %s = match %s.next() { None => { break; } Some(a_) => a_ };'
-                % (name, v, a, name) + body[m.end():])
+        cur = 'cur_' if n == 0 else 'cur%d_' % n
+        body = (body[:m.start()] + 'let mut %s = drain_all(&mut %s);\n            loop {\n                let %s = match %s.next() { None => { break; } Some(a_) => a_ };\n                let ghost %s = %s;'
+                % (name, v, a, name, cur, a) + body[m.end():])
         mask = code_mask(body)
         n += 1
     return body, n
@@ -279,7 +302,8 @@ def R3V(body, ctx):
 def R6S(body, ctx):
     """A parameter of fn-pointer option type `P: Option<fn(&T) -> T>` becomes `P: &Option<ReprFn<T>>` (the opaque
     prelude type; by reference because the opaque type is not `Copy` - a fn pointer is, so nothing changes for
-    the caller); for every binding `Some(F) = P` each call `F(args)` becomes `call_repr(F, args)`."""
+    the caller); for every binding `Some(F) = P` (`if let` / `while let` / `let .. else`) or `match P { .. Some(F) => .. }`
+    each call `F(args)` becomes `call_repr(F, args)`."""
     params = _split_top_commas(ctx['params'])
     new_params, names = [], []
     for p in params:
@@ -299,6 +323,15 @@ def R6S(body, ctx):
         for m in re.finditer(r'Some\(\s*(%s)\s*\)\s*=\s*%s(?![A-Za-z0-9_])' % (IDENT, re.escape(pn)), body):
             if mask[m.start()] and m.group(1) not in binds:
                 binds.append(m.group(1))
+        # the same binding spelled as a match arm: `match P { Some(F) => .., None => .. }`
+        for m in re.finditer(r'(?<![A-Za-z0-9_])match\s+%s\s*\{' % re.escape(pn), body):
+            if not mask[m.start()]:
+                continue
+            ob = m.end() - 1
+            cb = match_close(body, ob, mask)
+            for am in re.finditer(r'Some\(\s*(%s)\s*\)\s*=>' % IDENT, body[ob:cb]):
+                if mask[ob + am.start()] and am.group(1) not in binds:
+                    binds.append(am.group(1))
         for f in binds:
             rx = re.compile(r'(?<![A-Za-z0-9_.:])' + re.escape(f) + r'\s*\(')
             out, pos = [], 0
@@ -316,10 +349,18 @@ def R6S(body, ctx):
 
 
 def R11D(body, ctx):
-    """`let [mut] X = P.drain(..E).collect::<Vec<_>>();`  ->  `let n_ = E; let [mut] X = drain_front(P, n_);`
-    (prelude: removes the first n_ elements of the VecDeque P and returns them in order; std panics if
-    n_ > len, which becomes the precondition).  E is hoisted because the method call's two-phase borrow of P
-    is not available to a plain function call; it is still evaluated before the drain."""
+    """`let [mut] X = P.drain(RANGE)[.take(N)].collect::<Vec<_>>();` with RANGE `..E` or `..` (P a VecDeque)
+    -> `let n_ = E;` (`..`: `let n_ = P.len();`)  [`let k_ = N;`]  `let mut t_ = drain_front(P, n_);`  [`t_.truncate(k_);`]
+       `let [mut] X = t_;`
+    prelude `drain_front`: removes the first n_ elements of P and returns them in order; std panics if n_ > len, which
+    becomes the precondition.  std, VecDeque::drain: "Removes the specified range from the deque in bulk, returning all
+    removed elements as an iterator.  If the iterator is dropped before being fully consumed, it drops the remaining
+    removed elements" - so with `.take(N)` (Iterator::take: "Creates an iterator that yields the first n elements, or
+    fewer if the underlying iterator ends sooner") the whole range still leaves P and only the first N of it are
+    collected: `Vec::truncate(k_)` ("Shortens the vector, keeping the first len elements and dropping the rest.  If len
+    is greater or equal to the vector's current length, this has no effect", specified by vstd).
+    E is hoisted because the method call's two-phase borrow of P is not available to a plain function call; it is still
+    evaluated before the drain, and N after E as in the source (N cannot mention P: P is mutably borrowed there)."""
     mask = code_mask(body)
     rx = re.compile(r'let\s+(mut\s+)?(%s)\s*=\s*(%s)\s*\.\s*drain\s*\(\s*\.\.(?!=)' % (IDENT, IDENT))
     n = 0
@@ -331,13 +372,28 @@ def R11D(body, ctx):
         po = body.index('(', body.index('drain', m.start()))
         pc = match_close(body, po, mask)
         expr = body[m.end():pc].strip()
-        tail = re.match(r'\s*\.\s*collect::<\s*Vec<\s*_\s*>\s*>\(\s*\)\s*;', body[pc + 1:])
-        if not tail or not expr:
-            raise LostAnchor('R11D: `%s.drain(..E)` is not followed by `.collect::<Vec<_>>();`' % p)
+        pos = pc + 1
+        take = None
+        tk = re.match(r'\s*\.\s*take\s*\(', body[pos:])
+        if tk:
+            to = pos + tk.end() - 1
+            tc = match_close(body, to, mask)
+            take = body[to + 1:tc].strip()
+            if not take:
+                raise LostAnchor('R11D: `.take()` without an argument')
+            pos = tc + 1
+        tail = re.match(r'\s*\.\s*collect::<\s*Vec<\s*_\s*>\s*>\(\s*\)\s*;', body[pos:])
+        if not tail:
+            raise LostAnchor('R11D: `%s.drain(..)` is not followed by `[.take(N)].collect::<Vec<_>>();`' % p)
         is_ref_param = re.search(r'(?<![A-Za-z0-9_])' + re.escape(p) + r'\s*:\s*&\s*mut\b', ctx['params']) is not None
         recv = p if is_ref_param else '&mut ' + p
-        body = (body[:m.start()] + 'let n_ = %s;\n        let %s%s = drain_front(%s, n_);' % (expr, mut, x, recv)
-                + body[pc + 1 + tail.end():])
+        new = 'let n_ = %s;\n        ' % (expr if expr else p + '.len()')
+        if take is None:
+            new += 'let %s%s = drain_front(%s, n_);' % (mut, x, recv)
+        else:
+            new += ('let k_ = %s;\n        let mut t_ = drain_front(%s, n_);\n        t_.truncate(k_);\n        let %s%s = t_;'
+                    % (take, recv, mut, x))
+        body = body[:m.start()] + new + body[pos + tail.end():]
         mask = code_mask(body)
         n += 1
     return body, n
